@@ -513,7 +513,7 @@ func addExploration(ctx *core.Ctx, pl *plan) error {
 		for i := 0; i < n; i++ {
 			other := seeds[mrng.Intn(len(seeds))].Data
 			data, ms := mutate(mrng, s.Data, other)
-			r := &Req{Data: data}
+			r := &Req{Data: data, Raw: true}
 			if s.Encrypted {
 				r.Pass = "user"
 			}
@@ -541,7 +541,7 @@ type replayCase struct {
 
 func (rc *replayCase) req() *Req {
 	// a wiring case carries its bytes and the wiring: the bytes are the input, the wiring selects the guarded call
-	r := &Req{ID: "replay", Data: rc.Data, Pass: rc.Pass, Pipe: rc.Pipe, GraceMs: 3000, Wiring: rc.Wiring, Variant: rc.Var}
+	r := &Req{ID: "replay", Data: rc.Data, Raw: rc.Kind == "file", Pass: rc.Pass, Pipe: rc.Pipe, GraceMs: 3000, Wiring: rc.Wiring, Variant: rc.Var}
 	if rc.Calib != "" {
 		r.Calib = &CalibSpec{Kind: rc.Calib}
 	}
